@@ -168,6 +168,12 @@ package derive
 //@ pure
 //@ func (g *Plugin) Name() (r string)
 //@ pure
+// GetPrefix is modelled as an attribute of the plugin (a pure function of its identity).
+// That is sound only while no SetPrefix follows the sort: ghost typestate prefixesFrozen
+// (set by NewPlugins) forbids it.
+//@ func (g *Plugin) SetPrefix(p string) ()
+//@ assigns nothing
+//@ requires [prefixes-not-frozen] !prefixesFrozen
 
 // ghost: the generator that handled the most recent registration
 //@ func (g *Generator) Add(name string, typs []types.Type) (r string, err error)
@@ -369,6 +375,33 @@ package derive
 //@ loop 5: invariant pkg != nil && pkg.plugins == plugins && pkg.generators == generators && pkg.printer == printer
 //@ loop 5: invariant (!autoname && !dedup) ==> !changed
 
+// The collection NewPlugins returns is sorted (longest prefix first) and freezes the prefixes (C12).
+//@ ghost-fun sortedPlugins(ps) = forall a int, b int :: 0 <= a && a < b && b < len(ps) ==> !before(ps[b], ps[a])
+//@ ghost-fun nonNilPlugins(ps) = forall k int :: 0 <= k && k < len(ps) ==> ps[k] != nil
+//@ inv plugins: sortedPlugins(self.plugins) && nonNilPlugins(self.plugins)
+//@ func NewPlugins(ps []Plugin, autoname bool, dedup bool) (r Plugins)
+//@ assigns prefixesFrozen
+//@ mutates-arg: ps
+//@ requires nonNilPlugins(ps)
+//@ ghost-on-return: prefixesFrozen = true
+//@ ensures [frozen] prefixesFrozen
+//@ ensures [collection] r != nil && castp(r, plugins).autoname == autoname && castp(r, plugins).dedup == dedup
+//@ ensures [collection-sorted] sortedPlugins(castp(r, plugins).plugins)
+//@ ensures [collection-non-nil] nonNilPlugins(castp(r, plugins).plugins)
+
+// the interface view main.go uses
+//@ func (p *Plugins) Load(paths []string) (r Program, err error)
+//@ assigns nothing
+//@ requires [collection-sorted] p != nil && sortedPlugins(castp(p, plugins).plugins) && nonNilPlugins(castp(p, plugins).plugins)
+//@ ensures [program-sorted] err == nil ==> r != nil && sortedPlugins(castp(r, program).plugins) && nonNilPlugins(castp(r, program).plugins) && castp(r, program).program != nil
+//@ ensures [flags-kept] err == nil ==> castp(r, program).autoname == castp(p, plugins).autoname && castp(r, program).dedup == castp(p, plugins).dedup
+
+//@ func (p *plugins) Load(paths []string) (r Program, err error)
+//@ assigns nothing
+//@ ensures [plugins-kept] err == nil ==> castp(r, program).plugins == p.plugins
+//@ ensures [program-sorted] err == nil ==> r != nil && sortedPlugins(castp(r, program).plugins) && nonNilPlugins(castp(r, program).plugins) && castp(r, program).program != nil
+//@ ensures [flags-kept] err == nil ==> castp(r, program).autoname == p.autoname && castp(r, program).dedup == p.dedup
+
 // program: plugins are sorted (established by NewPlugins, kept by Load)
 //@ inv program: forall a int, b int :: 0 <= a && a < b && b < len(self.plugins) ==> !before(self.plugins[b], self.plugins[a])
 //@ inv program: forall k int :: 0 <= k && k < len(self.plugins) ==> self.plugins[k] != nil
@@ -490,3 +523,26 @@ package derive
 //@ loop 1: invariant pathToQual != nil && len(paths) == $count && distinct(paths)
 //@ loop 1: invariant forall j int :: 0 <= j && j < len(paths) ==> visited(pathToQual[paths[j]]) && p.imports[pathToQual[paths[j]]] == paths[j]
 //@ loop 1: invariant forall q string :: visited(q) ==> elemOf(p.imports[q], paths) && pathToQual[p.imports[q]] == q
+
+// ---------------------------------------------------------------------------
+// the whole run: every package of the program (C10, C07, C12)
+// ---------------------------------------------------------------------------
+
+//@ extern func (p *loader.Program) InitialPackages() (r []*loader.PackageInfo)
+//@ pure
+//@ reads-heap
+//@ ensures forall i int :: 0 <= i && i < len(r) ==> r[i] != nil && r[i].Pkg != nil
+
+//@ func (pg *program) Generate() (err error)
+//@ assigns fs, foff, handledBy, synced, any ast.CallExpr.Fun, any derive.printer.hasContent, any derive.printer.indent, any derive.printer.w, any derive.printer.imports, any derive.typesMap.generated, any derive.typesMap.funcToTyps, any derive.typesMap.typss
+//@ ensures [user-files-intact] (!pg.autoname && !pg.dedup) ==> forall q string :: !isDerivedFile(q) ==> ((q in fs) <==> (q in old(fs))) && fs[q] == old(fs)[q]
+//@ ensures [only-derived-file-created-or-deleted] forall q string :: !isDerivedFile(q) ==> ((q in fs) <==> (q in old(fs)))
+//@ loop 1: invariant (!pg.autoname && !pg.dedup) ==> forall q string :: !isDerivedFile(q) ==> ((q in fs) <==> (q in old(fs))) && fs[q] == old(fs)[q]
+//@ loop 1: invariant forall q string :: !isDerivedFile(q) ==> ((q in fs) <==> (q in old(fs)))
+
+// the interface view main.go uses
+//@ func (pg *Program) Generate() (err error)
+//@ assigns fs, foff, handledBy, synced, any ast.CallExpr.Fun, any derive.printer.hasContent, any derive.printer.indent, any derive.printer.w, any derive.printer.imports, any derive.typesMap.generated, any derive.typesMap.funcToTyps, any derive.typesMap.typss
+//@ requires [program-sorted] pg != nil && sortedPlugins(castp(pg, program).plugins) && nonNilPlugins(castp(pg, program).plugins) && castp(pg, program).program != nil
+//@ ensures [user-files-intact] (!castp(pg, program).autoname && !castp(pg, program).dedup) ==> forall q string :: !isDerivedFile(q) ==> ((q in fs) <==> (q in old(fs))) && fs[q] == old(fs)[q]
+//@ ensures [only-derived-file-created-or-deleted] forall q string :: !isDerivedFile(q) ==> ((q in fs) <==> (q in old(fs)))
